@@ -49,10 +49,10 @@ var frFaultsFor = map[string][]string{
 		// a well-formed manifest whose digest members are unusual: one empty / too short / not hex, or all spelled in
 		// the second form GetBlobsPath accepts ("sha256-<hex>") or in upper-case hex
 		"digest_empty", "digest_short", "digest_garbage", "digest_dash", "digest_upper"},
-	"head":     {"s500", "s404", "s401", "connerr", "lenplus", "lenminus", "nolen"},
-	"blob":     {"s500", "s502", "s404", "s401", "connerr", "samehost", "noredirect", "chain"},
-	"cdn":      {"s500", "s503", "s404", "s416", "connerr", "trunc", "reset", "flip", "stall", "stallforever", "norange"},
-	"token":    {"s500", "s401", "connerr", "badjson", "trunc"},
+	"head":  {"s500", "s404", "s401", "connerr", "lenplus", "lenminus", "nolen"},
+	"blob":  {"s500", "s502", "s404", "s401", "connerr", "samehost", "noredirect", "chain"},
+	"cdn":   {"s500", "s503", "s404", "s416", "connerr", "trunc", "reset", "flip", "stall", "stallforever", "norange"},
+	"token": {"s500", "s401", "connerr", "badjson", "trunc", "s401loop"},
 }
 
 var frChallenges = []string{
@@ -97,19 +97,20 @@ func (m *frModel) manifest() Manifest {
 }
 
 type frRegistry struct {
-	mu      sync.Mutex
-	models  map[string]*frModel // "ns/repo:tag"
-	blobs   map[string][]byte
-	faults  []frFault
-	counts  map[string]int
-	used    []string // faults actually applied
-	log     []string
+	mu        sync.Mutex
+	models    map[string]*frModel // "ns/repo:tag"
+	blobs     map[string][]byte
+	faults    []frFault
+	counts    map[string]int
+	used      []string // faults actually applied
+	log       []string
 	needTok   bool // every registry request must carry the bearer token
 	foldNames bool // repository names are looked up case-insensitively (as the real registry does)
 	chunk     int  // bytes delivered per body Read (default 4096)
 
-	lastManifest map[string]Manifest // per "ns/repo:tag": the manifest most recently served with status 200
-	sizeLied     map[string]bool     // digests whose size a served manifest misstated
+	lastManifest    map[string]Manifest   // per "ns/repo:tag": the manifest most recently served with status 200
+	servedManifests map[string][]Manifest // ... and all of them, in order
+	sizeLied        map[string]bool       // digests whose size a served manifest misstated
 
 	// hook is called (without the lock) at every request and before every body chunk; it may block (crash harness)
 	hook func(ev string)
@@ -152,6 +153,13 @@ func (r *frRegistry) take(kind string) *frFault {
 		if f.Kind == kind && f.Ord == n {
 			r.used = append(r.used, kind+":"+f.Fault)
 			return &f
+		}
+		// s401loop: from its ordinal on, every request of that kind is answered 401 with the same challenge (a token
+		// endpoint that itself demands authorisation, for good - until the faults are cleared)
+		if f.Kind == kind && f.Fault == "s401loop" && n > f.Ord {
+			g := f
+			g.Fault = "s401"
+			return &g
 		}
 	}
 	return nil
@@ -257,7 +265,7 @@ func (r *frRegistry) RoundTrip(req *http.Request) (*http.Response, error) {
 			return r.text(req, code, `{"errors":[{"code":"INTERNAL","message":"scripted"}]}`), nil
 		case "s404":
 			return r.text(req, 404, `{"errors":[{"code":"NOT_FOUND"}]}`), nil
-		case "s401":
+		case "s401", "s401loop":
 			h := http.Header{}
 			if c := frChallenges[f.Challenge%len(frChallenges)]; c != "" {
 				h.Set("Www-Authenticate", c)
@@ -310,6 +318,10 @@ func (r *frRegistry) RoundTrip(req *http.Request) (*http.Response, error) {
 			r.lastManifest = map[string]Manifest{}
 		}
 		r.lastManifest[arg] = mf
+		if r.servedManifests == nil {
+			r.servedManifests = map[string][]Manifest{}
+		}
+		r.servedManifests[arg] = append(r.servedManifests[arg], mf)
 		js, _ := json.Marshal(mf)
 		if fault == "badjson" {
 			js = js[:len(js)/2]
